@@ -609,6 +609,24 @@ func RespSetCells() []Cell {
 			out = append(out, NewCell("multimedia", map[string]string{"site": "reqbody", "content": m.name, "form": form}, s))
 		}
 	}
+	// one header definition used under different header names by several responses: by $ref to
+	// components.headers, or as inline copies
+	for _, form := range []string{"inline", "component"} {
+		s, _, op := Base()
+		hdr := func(name string) *spec.Header {
+			if form == "component" {
+				return &spec.Header{Name: name, Ref: "Counter"}
+			}
+			return &spec.Header{Name: name, Schema: spec.TF("integer", "int32")}
+		}
+		if form == "component" {
+			s.Comp.Headers = []spec.NamedHeader{{Name: "Counter", Header: &spec.Header{Schema: spec.TF("integer", "int32")}}}
+		}
+		s.Comp.Responses = []spec.NamedResponse{{Name: "Slow", Response: &spec.Response{Desc: "r", Headers: []*spec.Header{hdr("Retry-After")}}}}
+		op.Responses = []*spec.Response{{Status: "200", Desc: "r", Headers: []*spec.Header{hdr("X-Total-Count")}},
+			{Status: "202", Desc: "r", Headers: []*spec.Header{hdr("X-Queue-Length")}}, {Status: "429", Ref: "Slow"}, {Status: "default", Desc: "d"}}
+		out = append(out, NewCell("hdrshare", map[string]string{"form": form}, s))
+	}
 	return out
 }
 
